@@ -34,6 +34,9 @@ pub struct Scn {
 	pub dir: Dir,
 	pub rk_seed: u64,
 	pub only_kind: Option<RKind>,
+	/// also judge with apache-avro 0.17 (eligible schemas only)
+	#[serde(default)]
+	pub apache: bool,
 }
 
 pub struct C06;
@@ -139,11 +142,11 @@ impl Prop for C06 {
 		vec![
 			"the reference model is trusted as the judge of the specification; it shares only the compression libraries' high-level APIs with the crate".into(),
 			"blocks holding zero objects are not generated in direction B (unusual; no known writer emits them)".into(),
-			"apache-avro as second implementation is exercised by the crate's own test-suite only on two schemas; it is not linked into this harness".into(),
+			"apache-avro 0.17 is the second implementation on the schema subset with an obvious Value mapping (no logical types, no zero-width values, no maps in the files it writes); a disagreement with it is reported like a disagreement with the reference model".into(),
 		]
 	}
 	fn expected_probes(&self) -> Vec<&'static str> {
-		vec!["direction_a_files", "direction_b_files", "direction_b_absent_codec_key", "direction_b_metadata_negative_count_block", "direction_b_metadata_split"]
+		vec!["direction_a_files", "direction_b_files", "direction_b_absent_codec_key", "direction_b_metadata_negative_count_block", "direction_b_metadata_split", "apache_avro_read_crate_file", "apache_avro_wrote_file_for_crate"]
 	}
 	fn budget(&self, tier: Tier) -> (u64, u64) {
 		match tier {
@@ -166,6 +169,7 @@ impl Prop for C06 {
 				dir: Dir::A(container::gen_filespec(rng, &profile)),
 				rk_seed: rng.next_u64(),
 				only_kind: None,
+				apache: true,
 			};
 		}
 		let schema = container::gen_schema_for(rng, &profile);
@@ -208,6 +212,7 @@ impl Prop for C06 {
 			}),
 			rk_seed: rng.next_u64(),
 			only_kind: None,
+			apache: true,
 		}
 	}
 
@@ -220,6 +225,29 @@ impl Prop for C06 {
 				};
 				out.evals += 1;
 				check_direction_a(spec, &file, &model, "C06", &mut out);
+				let env_a = Env::build(&spec.schema);
+				if scn.apache && !out.failed() && crate::apache::eligible(&env_a, &spec.schema) {
+					out.evals += 1;
+					out.count("apache_avro_read_crate_file", 1);
+					match crate::apache::read_file(&env_a, &spec.schema, &file) {
+						Ok(r) => {
+							let want: Vec<Val> = model.iter().map(crate::apache::normalise).collect();
+							if r.values != want {
+								out.fail(
+									format!("C06:A:apache-avro-reads-other-values:{}", spec.codec.name()),
+									format!("apache-avro read {} values, {} were written; first difference at {:?}", r.values.len(), want.len(), r.values.iter().zip(&want).position(|(a, b)| a != b)),
+								);
+							} else {
+								let mut um = spec.user_meta.clone();
+								um.sort();
+								if r.user_meta != um {
+									out.fail("C06:A:apache-avro-reads-other-user-metadata", format!("{:?} vs {:?}", r.user_meta, um));
+								}
+							}
+						}
+						Err(e) => out.fail(format!("C06:A:apache-avro-cannot-read:{}", spec.codec.name()), e),
+					}
+				}
 				let mut sig = Fnv::new();
 				sig.str("A").u64(spec.codec.idx()).u64(spec.user_meta.len().min(3) as u64);
 				if let Ok(p) = ref_container::parse(&file) {
@@ -318,6 +346,38 @@ impl Prop for C06 {
 						break;
 					}
 				}
+				if scn.apache && !out.failed() && !b.values.is_empty() && crate::apache::eligible(&env, &b.schema) && !crate::apache::has_map(&env, &b.schema, 0) {
+					let flush_every = b.opts.partition.first().copied().unwrap_or(0);
+					match crate::apache::write_file(&env, &b.schema, &json, b.codec, &b.values, flush_every, &b.user_meta) {
+						Err(e) => out.fail("harness:C06:apache-write", e),
+						Ok(afile) => {
+							out.count("apache_avro_wrote_file_for_crate", 1);
+							// (the sync marker apache-avro draws is random: the file's bytes stay out of the digest)
+							let kind = scn.only_kind.clone().unwrap_or(if scn.rk_seed % 2 == 0 { RKind::Slice } else { RKind::Sim(crate::world::ReaderKind::Direct(crate::simio::RefillPlan::Fixed(1 + (scn.rk_seed % 13) as usize))) });
+							let r = container::read_file(&afile, &env, &b.schema, &kind, &[], budget);
+							out.evals += 1;
+							let codec = b.codec.name();
+							if let Some(p) = &r.panicked {
+								out.fail(format!("C06:B:read-panic:{}", panic_site(p)), format!("apache-avro-written file, {}: {p}", kind.label()));
+							} else if let Some(e) = &r.ctor_err {
+								out.fail(format!("C06:B:apache-avro-file:constructor-error:{codec}"), format!("{}: {e}", kind.label()));
+							} else if !r.ended_cleanly() {
+								out.fail(format!("C06:B:apache-avro-file:read-error:{codec}"), format!("{}: shape {}: {:?}", kind.label(), r.shape(), r.items.iter().find(|i| matches!(i, Item::Err { .. }))));
+							} else {
+								let got = r.values();
+								if got.len() != b.values.len() || got.iter().zip(&b.values).any(|(x, y)| *x != y) {
+									out.fail(format!("C06:B:apache-avro-file:values-differ:{codec}"), format!("{}: read {} values, apache-avro wrote {}", kind.label(), got.len(), b.values.len()));
+								} else {
+									let mut um = b.user_meta.clone();
+									um.sort();
+									if r.meta.as_ref() != Some(&um) {
+										out.fail("C06:B:apache-avro-file:user-metadata", format!("{}: got {:?} expected {:?}", kind.label(), r.meta, um));
+									}
+								}
+							}
+						}
+					}
+				}
 				out.digest = d.get();
 			}
 		}
@@ -333,6 +393,7 @@ impl Prop for C06 {
 						dir: Dir::A(s),
 						rk_seed: scn.rk_seed,
 						only_kind: scn.only_kind.clone(),
+						apache: scn.apache,
 					});
 				}
 			}
@@ -347,6 +408,7 @@ impl Prop for C06 {
 						dir: Dir::B(nb),
 						rk_seed: scn.rk_seed,
 						only_kind: scn.only_kind.clone(),
+						apache: scn.apache,
 					})
 				};
 				if !b.values.is_empty() {
